@@ -37,10 +37,11 @@ Step = namedtuple("Step", "tid file line func note")
 
 
 class _Gate(object):
-    __slots__ = ("file", "line", "func", "frame", "rule", "enabled_fn", "label")
+    __slots__ = ("file", "line", "func", "frame", "rule", "enabled_fn", "label", "tid")
 
     def __init__(self, file, line, func, frame, rule=None, enabled_fn=None, label=None):
         self.file, self.line, self.func, self.frame = file, line, func, frame
+        self.tid = None
         self.rule, self.enabled_fn, self.label = rule, enabled_fn, label
 
 
@@ -51,8 +52,10 @@ def _expr_code(node):
 
 
 class LockLines(object):
-    """`with E:` lines of `path` where E evaluates (in the parked frame) to something with
-    `.locked()`.  Entry is enabled iff the lock is free; the exit event of the holder is enabled."""
+    """`with E:` lines of `path` where E evaluates (in the parked frame) to a lock (`threading.Lock`
+    or `RLock`, or anything with acquire/release and `locked()`).  Entry is enabled iff the lock is
+    free - or, for a re-entrant lock, held by the entering thread itself; the exit event of a holder
+    is always enabled.  Works per lock *object*."""
 
     def __init__(self, path):
         self.path = str(path)
@@ -63,7 +66,7 @@ class LockLines(object):
                 # only single-item `with` statements can be told apart by line
                 if len(n.items) == 1:
                     self.lines.setdefault(n.lineno, _expr_code(n.items[0].context_expr))
-        self.holder = {}  # id(lock) -> frame (kept alive, so ids are not reused)
+        self.holder = {}  # id(lock) -> [(lock, frame, tid), ...] (frames kept alive, so ids are not reused)
 
     def reset(self):
         self.holder.clear()
@@ -76,7 +79,18 @@ class LockLines(object):
             obj = eval(code, gate.frame.f_globals, gate.frame.f_locals)
         except Exception:
             return None
-        return obj if hasattr(obj, "locked") and hasattr(obj, "acquire") else None
+        if hasattr(obj, "acquire") and hasattr(obj, "release") and (hasattr(obj, "locked") or hasattr(obj, "_is_owned")):
+            return obj
+        return None
+
+    @staticmethod
+    def _free(lk):
+        if hasattr(lk, "locked"):
+            return not lk.locked()
+        if lk.acquire(False):  # RLock before 3.14 has no locked(): probe from the controller thread
+            lk.release()
+            return True
+        return False
 
     def match(self, file, line):
         return file == self.path and line in self.lines
@@ -85,18 +99,24 @@ class LockLines(object):
         lk = self._lock(gate)
         if lk is None:
             return True
-        if self.holder.get(id(lk), (None, None))[1] is gate.frame:
+        st = self.holder.get(id(lk))
+        if st and st[-1][1] is gate.frame:
+            return True  # block exit of the holder
+        if self._free(lk):
             return True
-        return not lk.locked()
+        return bool(st) and st[-1][2] == gate.tid and hasattr(lk, "_is_owned")  # re-entry of an RLock by its owner
 
     def on_release(self, gate):
         lk = self._lock(gate)
         if lk is None:
             return None
-        if self.holder.get(id(lk), (None, None))[1] is gate.frame:
-            del self.holder[id(lk)]
+        st = self.holder.setdefault(id(lk), [])
+        if st and st[-1][1] is gate.frame:
+            st.pop()
+            if not st:
+                del self.holder[id(lk)]
             return "release"
-        self.holder[id(lk)] = (lk, gate.frame)
+        st.append((lk, gate.frame, gate.tid))
         return "acquire"
 
 
@@ -315,6 +335,7 @@ class Scheduler(object):
         return glob
 
     def _park(self, tid, gate):
+        gate.tid = tid
         for r in self.rules:
             if r.match(gate.file, gate.line):
                 gate.rule = r
